@@ -2,7 +2,7 @@ from vdriver import U
 
 PROPERTY = {
     "level": "proof",
-    "explanation": "a_tf_set_num/set_den/init/zero for all orders <= 2^16 (pointers stored, delay lines all-bits-zero by witness entry, other half untouched, zero == state after init); "
+    "explanation": "a_tf_set_num/set_den/init/zero for every unsigned order (pointers stored, delay lines all-bits-zero by witness entry, other half untouched, zero == state after init); "
                    "a_tf_iter on exactly sized heap blocks for every pair of orders 0..4 (bounded units): input line = new sample followed by the old entries, output line = returned value followed by the old entries (bit patterns, witness index), coefficients and instance untouched, no access outside the blocks; "
                    "difference equation y = sum num[i]*input'[i] - sum den[i]*output[i] against an independently written reference on the exact integer domain, 2 (thorough: 3) steps from zero state against the reference recurrence and replay after a_tf_zero; "
                    "a_real_push_fore/push_back shift semantics for n = 0..8; low-pass / high-pass one-step update for ALL doubles (IEEE evaluation of the documented formula), zero and init",
@@ -15,7 +15,7 @@ PROPERTY = {
     ],
     "assumptions": [
         "orders of a_tf_iter bounded by 4 x 4 (one unit per denominator order, numerator order by case split so that every memmove length is a constant on its path): units of level B; "
-        "orders are not bounded in tf_set / tf_init_zero (<= 2^16, memset model needs no unwinding)",
+        "orders are not bounded in tf_set / tf_init_zero (any unsigned int; the memset model needs no unwinding)",
         "difference equation decided on the exact domain only (integer samples and coefficients |v| <= 2^10; |v| <= 16 for the multi-step units): every product and partial sum is exact, "
         "so the verdict does not depend on the accumulation order; the reference is a left fold in the order of the definition",
         "'for every input sequence, starting from zero state': a_tf_iter is verified from an ARBITRARY state of both delay lines (shift: any bit pattern; equation: exact domain); induction over the sequence is a paper step, backed by the multi-step units",
